@@ -230,6 +230,11 @@ package mobius
 //@ func HandleTranOldPostNews(cc *hotline.ClientConn, t *hotline.Transaction) (res []hotline.Transaction)
 //@   before call (*hotline.ClientConn).NewReply assert callres("(io.ReadWriteSeeker).Write", 1) == nil
 //@   before call (*hotline.ClientConn).SendAll assert callres("(io.ReadWriteSeeker).Write", 1) == nil
+// the post format has classic line breaks only: what goes to the board (and is announced) is the
+// whole assembled post -- header with name and date included -- with every LF turned into CR
+//@   before call strings.ReplaceAll assert arg0 == callres("fmt.Sprintf") && arg1 == "\n" && arg2 == "\r"
+//@   before call (io.ReadWriteSeeker).Write assert bytes(arg1) == bytes(callres("strings.ReplaceAll"))
+//@   before call hotline.NewField assert bytes(arg1) == bytes(callres("strings.ReplaceAll"))
 
 //@ func HandleGetMsgs(cc *hotline.ClientConn, t *hotline.Transaction) (res []hotline.Transaction)
 //@   before call io.ReadAll assert arg0 == cc.Server.MessageBoard
@@ -366,6 +371,21 @@ package mobius
 //@   before call hotline.NewForkInfoList assert u32(bytes(arg0)) == callres("Size") % 4294967296 && callres("(hotline.FileStore).Stat#2", 1) == nil
 //@   before call hotline.NewField#2 assert arg0[0] == 0 && arg0[1] == 203 && same(arg1, callres("BinaryMarshal", 0))
 //@   before call hotline.NewFileResumeData assert len(arg0) == 1
+// the request only announces the upload: the partial file whose size was just reported (and every
+// other file) is left as it is -- nothing is removed, renamed, truncated or created here
+//@   before any call (hotline.FileStore).Remove assert false
+//@   before any call (hotline.FileStore).RemoveAll assert false
+//@   before any call (hotline.FileStore).Rename assert false
+//@   before any call (hotline.FileStore).OpenFile assert false
+//@   before any call (hotline.FileStore).Create assert false
+//@   before any call (hotline.FileStore).WriteFile assert false
+//@   before any call os.Remove assert false
+//@   before any call os.RemoveAll assert false
+//@   before any call os.Rename assert false
+//@   before any call os.Truncate assert false
+//@   before any call os.OpenFile assert false
+//@   before any call os.Create assert false
+//@   before any call os.WriteFile assert false
 
 // ---------------------------------------------------------------------------------
 // C15: the three password cases of a single-account edit.  The field absent clears the password
@@ -479,6 +499,29 @@ package mobius
 // C11: a move is refused only for a stated reason: the source cannot be found, or the requester
 // lacks the move privilege for that kind of item; otherwise the wrapper is moved to the resolved
 // destination and success is reported only if Move returned nil.
+
+// C05: the file-or-folder question that selects the governing privilege is asked about the item
+// the request addresses -- the very wrapper that is then moved / deleted -- not about another path.
+//@ func HandleMoveFile(cc *hotline.ClientConn, t *hotline.Transaction) (res []hotline.Transaction)
+//@   property C05
+//@   before any call (os.FileInfo).Mode assert same(arg0, callres("(*hotline.fileWrapper).DataFile", 0))
+//@   before any call (io/fs.FileInfo).Mode assert same(arg0, callres("(*hotline.fileWrapper).DataFile", 0))
+//@   some call (os.FileInfo).Mode | (os.FileInfo).IsDir | (io/fs.FileInfo).Mode | (io/fs.FileInfo).IsDir
+//@   before call (*hotline.fileWrapper).DataFile assert arg0 == callres("hotline.NewFileWrapper", 0)
+//@   before any call (os.FileInfo).IsDir assert same(arg0, callres("(*hotline.fileWrapper).DataFile", 0))
+//@   before any call (io/fs.FileInfo).IsDir assert same(arg0, callres("(*hotline.fileWrapper).DataFile", 0))
+//@   before call (*hotline.fileWrapper).Move assert arg0 == callres("hotline.NewFileWrapper", 0)
+//@   before call hotline.NewFileWrapper assert arg1 == callres("hotline.ReadPath#1", 0)
+//@ func HandleDeleteFile(cc *hotline.ClientConn, t *hotline.Transaction) (res []hotline.Transaction)
+//@   property C05
+//@   before any call (os.FileInfo).Mode assert same(arg0, callres("(*hotline.fileWrapper).DataFile", 0))
+//@   before any call (io/fs.FileInfo).Mode assert same(arg0, callres("(*hotline.fileWrapper).DataFile", 0))
+//@   some call (os.FileInfo).Mode | (os.FileInfo).IsDir | (io/fs.FileInfo).Mode | (io/fs.FileInfo).IsDir
+//@   before call (*hotline.fileWrapper).DataFile assert arg0 == callres("hotline.NewFileWrapper", 0)
+//@   before any call (os.FileInfo).IsDir assert same(arg0, callres("(*hotline.fileWrapper).DataFile", 0))
+//@   before any call (io/fs.FileInfo).IsDir assert same(arg0, callres("(*hotline.fileWrapper).DataFile", 0))
+//@   before call (*hotline.fileWrapper).Delete assert arg0 == callres("hotline.NewFileWrapper", 0)
+//@   before call hotline.NewFileWrapper assert arg1 == callres("hotline.ReadPath", 0)
 
 //@ func HandleMoveFile(cc *hotline.ClientConn, t *hotline.Transaction) (res []hotline.Transaction)
 //@   property C11
